@@ -180,6 +180,13 @@ func init() {
 				bounds := rangeSafe(eco, versionTemplates(eco, "m"))
 				bs := thin(bounds, nb)
 				ps := thin(versionTemplates(eco, "m"), np)
+				// the free-run probe (two characters over the whole version alphabet) and the must-have
+				// spellings are always among the probes
+				for _, extra := range append([]string{freeRunOf(eco)}, mustTemplates(eco)...) {
+					if extra != "" && !has(ps, extra) {
+						ps = append(ps, extra)
+					}
+				}
 				for _, op := range spec.ops {
 					for _, b := range bs {
 						for _, p := range ps {
